@@ -132,6 +132,31 @@ class dfs_iterative_step:
         return flow == 'next'
 
 
+@contract('kernpy.core.document.Node.dfs_iterative', props=['C17'], name='dfs_iterative_head', use_at_calls=False)
+class dfs_iterative_head:
+    """At the head of `while stack`: the stack holds exactly the node the walk was started on, and the traversal object has not been
+    shown anything yet (with dfs_iterative_step: the first node shown is that node; A-dfs for the rest).  There is no statement after
+    the loop."""
+    cut = 'while stack'
+    assumes = (A_DFS,)
+
+    def inputs(g):
+        from kernpy.core.document import Node
+        kids = g.mlist('start.children', lambda e: e.new(Node, {'id': e.int('id')}, None))
+        start = g.new(Node, {'id': g.int('start.id', 0), 'token': None, 'parent': None, 'children': kids, 'stage': 0, 'header_node': None,
+                             'last_signature_nodes': None, 'last_spine_operator_node': None}, None)
+        if not hasattr(start, 'fields'):
+            start.id, start.token, start.parent, start.children, start.stage, start.header_node = 0, None, None, kids, 0, None
+        seen = g.mlist('seen', lambda e: e.new(Node, {'id': e.int('id')}, None))
+        return {'self': start, 'tree_traversal': VisitRecorder(seen), '_start': start, '_seen_before': seen.copy()}
+
+    def cut_stack_is_the_start_node(stack, start):
+        return conj(len(stack) == 1, stack[0] is start)
+
+    def cut_nothing_shown_yet(tree_traversal, seen_before):
+        return tree_traversal.seen == seen_before
+
+
 # ------------------------------------------------------------------------------------------------ the listing queries of Document
 from pyvc.ghost import ghost_get, ghost_set, fresh_list, symbolic_run
 from kernpy.core.document import Node, MultistageTree
